@@ -37,3 +37,5 @@ func Implies(a, b bool) bool            { sym(); return false }
 func IteF(c bool, a, b float64) float64 { sym(); return 0 }
 func IteI(c bool, a, b int64) int64     { sym(); return 0 }
 func IntRange(name string, lo, hi int64) int64 { sym(); return 0 }
+func ResetReplay()                       { sym() }
+func Settle()                            { sym() }
